@@ -10,7 +10,11 @@ import (
 // skeleton: position-free canonical dump of the AST. Strings are hex; no blanks.
 // Commands are dumped in full form (AndOrList > Pipeline > Cmd) whatever extract() collapsed.
 
-func skWord(w ast.Word) string {
+func skWord(w ast.Word) string { return skWordM(w, true) }
+
+// skWordM: merge tells whether adjacent literals are merged. They are not in an arithmetic
+// expression, where the lexer starts a new literal after every blank ("1 2" is not "12").
+func skWordM(w ast.Word, merge bool) string {
 	if w == nil {
 		return "N"
 	}
@@ -24,7 +28,7 @@ func skWord(w ast.Word) string {
 		case *ast.Lit:
 			// adjacent literals denote the same text as one literal
 			v := p.Value
-			for i+1 < len(w) {
+			for merge && i+1 < len(w) {
 				n, ok := w[i+1].(*ast.Lit)
 				if !ok {
 					break
@@ -52,7 +56,7 @@ func skWord(w ast.Word) string {
 			}
 			b.WriteString("C" + d + skCmds(p.List))
 		case *ast.ArithExp:
-			b.WriteString("A" + skWord(p.Expr))
+			b.WriteString("A" + skWordM(p.Expr, false))
 		default:
 			b.WriteString(fmt.Sprintf("?%T", p))
 		}
@@ -174,7 +178,7 @@ func skExpr(e ast.CmdExpr) string {
 	case *ast.Group:
 		return "group" + skCmds(e.List)
 	case *ast.ArithEval:
-		return "arith" + skWord(e.Expr)
+		return "arith" + skWordM(e.Expr, false)
 	case *ast.ForClause:
 		n := "N"
 		if e.Name != nil {
